@@ -136,6 +136,11 @@ func StatusFor(c map[string]any, class string) map[string]any {
 		s := world.ReadyStatus(g + 7)
 		s["x"] = x
 		return s
+	case "stale0":
+		// an explicit observedGeneration: 0 (a zero value written before the first real sync)
+		s := world.ReadyStatus(0)
+		s["x"] = x
+		return s
 	}
 	panic("bad status class " + class)
 }
@@ -147,6 +152,9 @@ func StatusClass(c map[string]any) string {
 		return "none"
 	}
 	og, _ := st["observedGeneration"].(int64)
+	if og == 0 && world.Generation(c) != 0 {
+		return "stale0"
+	}
 	if og != world.Generation(c) {
 		return "stale"
 	}
